@@ -5,7 +5,7 @@ observed output, and answers one line per record:
   `ok <flags…>` | `DISAGREE <kind> model=<…> impl=<…>` | `ORACLE-FAIL <property> <detail>` |
   `KNOWN <property> <signature> …` | `BADREC <kind>`.
 -/
-import Driver.Stages2
+import Driver.Stages3
 open Pm Drv
 
 def handle (line : String) : String :=
@@ -24,6 +24,7 @@ def handle (line : String) : String :=
       | "TRM" => some (handleTreeChar pMCons sMCons mkeyLt "TREE.matrix")
       | "TRH" => some handleTRH
       | "TRT" => some handleTRT
+      | "TP" => some handleTP
       | _ => none
     match p with
     | none => s!"BADREC unknown-kind {kind}"
